@@ -28,6 +28,8 @@ type Options struct {
 	SampleEvery   int
 	Deadline      time.Time
 	StopOnViolation bool
+	Params          map[string]int
+	Seed            int
 }
 
 type PathResult struct {
@@ -101,13 +103,14 @@ func (m *Machine) RunPath(entry *ssa.Function, item WorkItem, solver *sym.Solver
 		m.CallsByFn = map[string]int64{}
 	}
 	m.objs = nil
+	m.Params = opt.Params
 	m.MapOrderSymbolic = false
 	m.MapDeviationBudget = 0
 	m.mapRotations = 0
 	m.resetSched()
 	solver.Reset()
 	p := &Path{Ctx: sym.NewCtx(), Solver: solver, Prefix: item.Prefix, Covers: map[string]bool{}, Known: map[string]bool{},
-		Notes: map[string]int64{}, MaxDecisions: opt.MaxDecisions}
+		Notes: map[string]int64{}, MaxDecisions: opt.MaxDecisions, Fallback: m.fallback}
 	if len(item.Prefix) == 0 {
 		p.setModel(map[string]uint64{})
 	} else if item.Model != nil {
@@ -208,7 +211,7 @@ func Explore(P *Program, entry *ssa.Function, opt Options) *Summary {
 		opt.SolverKind = "z3"
 	}
 	if opt.SolverTimeout == 0 {
-		opt.SolverTimeout = 10000
+		opt.SolverTimeout = 4000
 	}
 	sum := &Summary{Entry: entry.Name(), ByStatus: map[string]int{}, Covers: map[string]int{}, Notes: map[string]int64{}, Funcs: map[string]bool{}}
 	var mu sync.Mutex
@@ -231,7 +234,27 @@ func Explore(P *Program, entry *ssa.Function, opt Options) *Summary {
 			return
 		}
 		defer solver.Close()
+		var fbs []*sym.Solver
+		defer func() {
+			for _, f := range fbs {
+				f.Close()
+			}
+		}()
+		fallback := func() []*sym.Solver {
+			if fbs == nil {
+				for _, k := range []string{"cvc5", "z3-new", "z3"} {
+					if k == opt.SolverKind {
+						continue
+					}
+					if f, err := sym.NewSolver(k, opt.SolverTimeout*3); err == nil {
+						fbs = append(fbs, f)
+					}
+				}
+			}
+			return fbs
+		}
 		m := NewMachine(P)
+		m.fallback = fallback
 		m.P.Trace = opt.Trace
 		for {
 			mu.Lock()
